@@ -38,6 +38,7 @@ func runC05(c *Ctx) {
 	r.Doc("D2", "lists handed to the divider are sorted and duplicate-free", 8)
 	r.Doc("P3", "the second phase hands out the unspent allotment of the round, measured before anything changes the map", 2)
 	r.Doc("P5", "(= B4) the number of vacant handlers is HandlersQuantity - sum(actual): handlers whose release was not read yet are not vacant", 2)
+	r.Doc("P6", "(= B13) HandlersQuantity reaches the inner discipline as configured (the shares are shares of the handlers that exist)", 2)
 	r.Doc("P4", "the pass over an input ends only when its allotment is spent, nothing is buffered / two ticks passed, it is closed, or a stop fired (so an unspent allotment means 'no data')", 4)
 	for _, p := range []*Prog{c.V1, c.V2} {
 		pr, err := resolvePrio(p)
@@ -69,6 +70,10 @@ func runC05(c *Ctx) {
 		for _, o := range subv.R.Obls {
 			c.R.Check(o.OK, "P5", strings.TrimPrefix(o.Key, "B4@"), o.Site, o.Detail, o.Detail)
 		}
+		// P6 (= B13): the shares are shares of the configured number of handlers: the simplified
+		// disciplines hand HandlersQuantity to the inner discipline as given (they run exactly that
+		// many handlers, so shares of any other number are exceeded or never reached)
+		checkCapacityUnmodified(c, p, "P6")
 	}
 }
 
@@ -457,9 +462,13 @@ func checkN2(c *Ctx, pr *prioRoles) {
 			// (b) inside the loop guarded by not-all-zero, or
 			// (a) on the proceed==false edge of the round-start calculation
 			guardOf := func(in ssa.Instruction) string {
-				for _, e := range InstrDomEdges(in) {
-					if p.edgeIsCallResult(e, func(f *ssa.Function) bool { return f == pr.sr.allZero }, false) {
-						return "inside the wait loop guarded by 'something is in flight'"
+				// (b) holds only in the terminal wait (the deferred wait-for-zero function): anywhere
+				// else "something is in flight" does not excuse blocking while inputs may have data
+				if in.Parent() == pr.sr.waitZero {
+					for _, e := range InstrDomEdges(in) {
+						if p.edgeIsCallResult(e, func(f *ssa.Function) bool { return f == pr.sr.allZero }, false) {
+							return "inside the wait loop guarded by 'something is in flight'"
+						}
 					}
 				}
 				for _, e := range InstrDomEdges(in) {
